@@ -15,3 +15,6 @@ func WriteFile(name string, data []byte, perm simos.FileMode) error {
 }
 func ReadAll(r io.Reader) ([]byte, error) { return io.ReadAll(r) }
 func NopCloser(r io.Reader) io.ReadCloser { return io.NopCloser(r) }
+
+func TempFile(dir, pattern string) (*simos.File, error) { return simos.CreateTemp(dir, pattern) }
+func TempDir(dir, pattern string) (string, error)      { return simos.MkdirTemp(dir, pattern) }
